@@ -175,3 +175,14 @@ Proof.
   change 4 with (2 ^ 2) at 1. rewrite (cert_enc_parent _ _ _ _ cert2) by assumption.
   change (2 ^ 2) with 4. rewrite il2_div4. reflexivity.
 Qed.
+
+(* the order guard of HilbertCurve::partition, with the limits read from the source *)
+Lemma order_guard_spec order :
+  (order_guard max_order_2d order = Ok tt <-> order <= 32) /\
+  (order_guard max_order_3d order = Ok tt <-> order <= 21) /\
+  (32 < order -> order_guard max_order_2d order = Err (InvalidOrder 32 order)) /\
+  (21 < order -> order_guard max_order_3d order = Err (InvalidOrder 21 order)).
+Proof.
+  unfold order_guard. change max_order_2d with 32. change max_order_3d with 21.
+  destruct (N.ltb_spec 32 order), (N.ltb_spec 21 order); repeat split; intros; try lia; try discriminate; try reflexivity.
+Qed.
